@@ -39,7 +39,7 @@ _ORIG_PUSH = None
 # ----------------------------------------------------------------------------
 # instance generation
 # ----------------------------------------------------------------------------
-THEMES = ['default'] * 6 + ['highcorr_budget', 'share_lo', 'share_lo', 'doubles', 'tfixed_budget', 'dyadic_share', 'early_shift', 'one_sided', 'many_must']
+THEMES = ['default'] * 6 + ['highcorr_budget', 'share_lo', 'share_lo', 'doubles', 'tfixed_budget', 'dyadic_share', 'early_shift', 'one_sided', 'many_must', 'twins']
 
 
 def gen_instance(rng, tier, max_admitted=5, force=None, theme=None):
@@ -51,6 +51,8 @@ def gen_instance(rng, tier, max_admitted=5, force=None, theme=None):
     tfixed_budget:   a geo fixed to treatment together with a budget range
     dyadic_share:    geo shares that are exact binary fractions (k/16, k/32, k/64) with a share range whose bounds are
                      such fractions: treatment shares land exactly on the bounds
+    twins:           one market reported twice under two IDs (identical series): exactly tied scores and perfectly
+                     correlated candidates; the searches must still come back (with designs or ValueError)
     many_must:       more geos that may not be excluded than n_geos_max allows: all of them must still be placed
     one_sided:       every geo is eligible for one group only (or must be excluded): no design exists, both searches must
                      still terminate with an empty list or ValueError
@@ -101,6 +103,8 @@ def gen_instance(rng, tier, max_admitted=5, force=None, theme=None):
   if theme == 'early_shift' and n_dates >= 12:
     g0 = rng.choice(geos)
     values[g0] = [3 * v if d < n_dates // 2 else v for d, v in enumerate(values[g0])]
+  if theme == 'twins' and n_data >= 2:
+    values[geos[-1]] = list(values[geos[0]])
   rows = []
   missing = rng.random() < 0.15 and theme not in ('doubles', 'dyadic_share')
   dup = rng.random() < 0.1 and theme not in ('doubles', 'dyadic_share')
